@@ -342,6 +342,8 @@ func (st *State) callUnknown(c *ssa.CallCommon, fnv Val, args []Val, site ssa.In
 }
 
 func (st *State) freshResults(res *types.Tuple, prefix string) Val {
+	st.noAllocAssume = true
+	defer func() { st.noAllocAssume = false }()
 	switch res.Len() {
 	case 0:
 		return TupleV{}
@@ -360,6 +362,9 @@ func (st *State) resultsAllocated(res Val, rt *types.Tuple) {
 	one := func(v Val, t types.Type) {
 		if tv, ok := v.(TV); ok && isRefLike(t) {
 			st.assumeAllocated(tv.T)
+		}
+		if sv, ok := v.(SliceV); ok {
+			st.assumeAllocated(sv.Arr)
 		}
 	}
 	switch r := res.(type) {
